@@ -56,7 +56,7 @@ type Engine struct {
 	ufApps    []ufApp
 	failSeq   int
 	tracking  bool
-	writes    int
+	changed   Value // disjunction of "this tracked store changed a value"
 	realSeq   int // > 0: realisation run for the failure with this ordinal
 	obsVals   []obs
 	complete  bool // completion mode: never queue alternatives
